@@ -85,7 +85,7 @@ def loop_iteration_table(rep):
         if found:
             return {"exit": "break", "lw": lw, "rw": rw}
         if O.lt(L, Lin.num(0)) and O.gt(R, dur):
-            O.raise_("FindZeroCrossingError")
+            O.raise_("ANY")  # 'it raises the documented errors (..., no crossing found)' 
         return {"exit": "fallthrough", "left": L - T, "right": R + T, "lw": lw, "rw": rw}
 
     def eq(I, g, w):
@@ -136,7 +136,7 @@ def helper_tables(rep):
         A = a if "a" in mode else None
         B = b if "b" in mode else None
         if A is None and B is None:
-            O.raise_("ArgumentError")
+            O.raise_("ANY")
         if A is None:
             return B
         if B is None:
